@@ -160,6 +160,41 @@ def run_reuse(chk, spec):
 	text = common.csv_text(spec)
 	kw = dict(delimiter=spec["delimiter"], has_header=spec["has_header"])
 	chk.judged("csv-reuse", ("reuse", spec["via"], spec["between"], spec["delimiter"]))
+	if spec["via"] == "fileobj" and spec["between"] in ("realfile-preamble", "realfile-partly-iterated"):
+		# a REAL text file opened by the caller (not an in-memory buffer), already partly read: read_csv continues from there and leaves the handle to the caller
+		pre = "# exported 2020-01-31\n"
+		fd, path = tempfile.mkstemp(prefix="serifmon-", suffix=".csv")
+		try:
+			with os.fdopen(fd, "w", encoding="utf-8", newline="") as fh:
+				fh.write(pre + text)
+			with open(path, "r", encoding="utf-8", newline="") as f:
+				if spec["between"] == "realfile-preamble":
+					f.readline()
+				else:
+					next(iter(f))
+				b = call(serif.read_csv, f, **kw)
+				closed = f.closed
+		finally:
+			os.unlink(path)
+		if not b.ok:
+			chk.fail("read_csv reads every well-formed file", f"csv/raises/{spec['between']}/{type(b.exc).__name__}", f"read_csv on a real file handle after a line was read ({text!r}) raised {b!r}")
+			return
+		if closed:
+			chk.fail("read_csv reads the caller's file object and leaves it to the caller", "csv/closed-the-callers-file-object", f"read_csv(f) closed the caller's real file ({text!r})")
+			return
+		judge_table(chk, spec, b.value, text)
+		return
+	if spec["via"] == "fileobj" and spec["between"] == "after-a-headerless-read-with-a-longer-record":
+		# an unrelated earlier header-less read whose LATER record is longer than its first one (undefined input) must not change what this read returns
+		k = spec["ncols"]
+		junk = ",".join(["1"] * k) + "\n" + ",".join(["2"] * (k + 2)) + "\n"
+		call(serif.read_csv, io.StringIO(junk, newline=""), delimiter=",", has_header=False)
+		b = call(serif.read_csv, io.StringIO(text, newline=""), **kw)
+		if not b.ok:
+			chk.fail("read_csv reads every well-formed file", f"csv/raises/{spec['between']}/{type(b.exc).__name__}", f"{text!r} raised {b!r}")
+			return
+		judge_table(chk, spec, b.value, text)
+		return
 	if spec["via"] == "fileobj" and spec["between"] in ("preamble", "rejected-call-first"):
 		# a file object is read from where the caller left it; a call that was rejected for its arguments has not consumed it
 		pre = "# exported 2020-01-31; 3 records\n" if spec["between"] == "preamble" else ""
@@ -266,11 +301,15 @@ def run(chk):
 		chk.case("csv", spec, "csv-sampled")
 	for _ in range(40 if chk.quick() else 400):
 		chk.case("csv", common.gen_csv_long(rng), "csv-long")
+	# a header (or first cell) that starts with U+FEFF is that text, verbatim - by path as through a file object
+	for hdr, grid in ((["\ufeffname", "b"], [["1", "2"]]), (["\ufeff", "x"], [["1", "2"]]), (None, [["\ufeff12", "3"], ["4", "5"]]), (["\ufeffa,b", "c"], [["1", "2"]])):
+		for via in ("fileobj", "path"):
+			chk.case("csv", {"op": "csv", "header": hdr, "grid": grid, "delimiter": ",", "has_header": hdr is not None, "ncols": 2, "via": via, "pattern": "bom"}, "csv-bom")
 	for _ in range(120 if chk.quick() else 800):
 		spec = common.gen_csv_spec(rng, max_rows=rng.choice([3, 6]))
 		if not spec["grid"]:
 			continue
 		spec["via"] = rng.choice(["fileobj", "path", "path"])
-		spec["between"] = rng.choice(["nothing", "edit-result", "rewrite-file"]) if spec["via"] == "path" else rng.choice(["seek0", "preamble", "rejected-call-first"])
+		spec["between"] = rng.choice(["nothing", "edit-result", "rewrite-file"]) if spec["via"] == "path" else rng.choice(["seek0", "preamble", "rejected-call-first", "realfile-preamble", "realfile-partly-iterated", "after-a-headerless-read-with-a-longer-record"])
 		spec["bad_delimiter"] = rng.choice([";;", "", "ab"])
 		chk.case("reuse", spec, "csv-reuse")
